@@ -685,14 +685,19 @@ def evaluate(cases, workdir=None):
         _compare(case, obs, index, model['steps'], v)
         for pos, i, t, kind in tags:
             step = mon['steps'][pos]
-            if kind in ('skip', 'reset-skip'):
+            if kind == 'skip':
                 v.n_skip += 1
                 if step['c03'] is False:
                     v.c03.append((i, t, kind))
-            else:
+            elif kind == 'exec':
                 v.n_exec += 1
                 if step['c04'] is False:
                     v.c04.append((i, t, kind))
+            else:
+                # reset-dep reports `skip` / `processed` from the same get_status; C03/C04 speak about `run`:
+                # the verdict is kept as information, never as a violation of these two properties
+                verdict = step['c03'] if kind == 'reset-skip' else step['c04']
+                _count(v, 'reset-monitor:%s:%s' % (kind, 'holds' if verdict is not False else 'FALSE'))
         verdicts.append(v)
     return verdicts
 
